@@ -224,7 +224,8 @@ CLAIMED["C04"] = dict(
 CLAIMED["C17"] = dict(
     text="Model of read_EMD_v0p1.py and of the fallback in read(). Kernel-checked for EVERY file: C17_refuse_junk / _missing / "
          "_no_groups — non-HDF5 bytes, and any HDF5 file that is neither EMD 1.0 nor holds a group tagged emd_group_type=1, make "
-         "read raise; C17_detector — the EMD 1.0 detector is exactly header type 'file' + version 1.0 + >= 1 root; C17_import_axis — "
+         "read raise; C17_detector — the EMD 1.0 detector is exactly header type 'file' + version 1.0 + >= 1 root (C17_missing_attribute: a missing "
+         "header attribute is not 'as expected'); C17_import_axis — "
          "a full-length 1-based dim dataset becomes the axis' dim vector verbatim (every arithmetic); C17_import_calibrated — every "
          "imported Array satisfies C14; C17_import_faithful — the import of a data group with full-length dim datasets succeeds and "
          "yields its data token and per axis exactly the stored vector, name and units; C17_single — one data group gives that "
